@@ -662,8 +662,11 @@ def number_recovery(ctx, rule='C18.T3'):
                     ctx.violated(rule, tm, g_, '%s() is only attempted on texts matching %r, which rejects %s: such %s cells, as the csv writer emits them, come back as strings' % (kind, pat_, rejected[:3], kind))
                 else:
                     ctx.holds(rule, tm, 'the guard of %s() accepts the texts the writers emit for %s cells (%d witnesses incl. exponent forms)' % (kind, kind, len(WITNESS[kind])), g_)
-    fallthrough = [r_ for r_ in tm.returns() if r_.value is not None and unparse(r_.value) == tm.real_params[0]]
-    ctx.check(bool(fallthrough), rule, tm, tm.node.name, 'non-numeric strings are returned unchanged', 'non-numeric strings are not returned unchanged')
+    fallthrough = [r_ for r_ in tm.returns() if r_.value is not None and Pat().m(tm.real_params[0], tm.expand(r_.value))]
+    other_ret = [r_ for r_ in tm.returns() if r_.value is not None and not Pat().m(tm.real_params[0], tm.expand(r_.value)) and
+                 not (isinstance(tm.expand(r_.value), ast.Call) and (dotted(tm.expand(r_.value).func) in ('int', 'float') or isinstance(tm.expand(r_.value).func, ast.Name)))]
+    ctx.tri(bool(fallthrough), not fallthrough and (bool(other_ret) or any(r_.value is None for r_ in tm.returns())), rule, tm, (fallthrough or other_ret or [tm.node.name])[0],
+            'non-numeric strings are returned unchanged', 'non-numeric strings are not returned unchanged', 'the fall-through return of _try_make_number was not recognised')
 
 
 ESCAPING = ('repr', 'json.dumps', 'ascii')
